@@ -580,6 +580,22 @@ func genTypedProgram(r *RNG, model *CfgModel, userClasses []*GClass, n int) []*t
 		w := last.ty
 		add(&tStmt{Text: "dbtp " + last.name, Kind: "probe", Want: &w, RetKind: "literal"})
 	}
+	// a union of two configured classes that both declare the same method
+	// more than once (generated configurations: ov0 of the first two classes)
+	var ovs []string
+	for _, cl := range classes {
+		if len(model.Lookup(cl, "ov0", false)) > 1 {
+			ovs = append(ovs, cl)
+		}
+	}
+	if len(ovs) >= 2 && r.Bool() {
+		la, _ := valueOf(ovs[0])
+		lb, _ := valueOf(ovs[1])
+		v := newVar(mt(ovs[0], ovs[1]))
+		add(&tStmt{Text: fmt.Sprintf("%s = flag ? %s : %s", v.name, la, lb), Kind: "assign-union"})
+		w := v.ty
+		add(&tStmt{Text: "dbtp " + v.name, Kind: "probe", Want: &w, RetKind: "literal"})
+	}
 	tainted := false
 	isScalar := func(t MT) bool {
 		if t.Unknown || len(t.Atoms) == 0 {
@@ -873,6 +889,28 @@ func genTypedProgram(r *RNG, model *CfgModel, userClasses []*GClass, n int) []*t
 						method = Pick(r, kwNames)
 					}
 				}
+				if r.Chance(1, 4) {
+					// prefer a method with a positional parameter that is a union of
+					// three or more classes (a union argument can be a strict subset)
+					var wide []string
+					for _, nm := range names {
+						// (or one that is declared more than once)
+						isWide := len(model.Lookup(cl, nm, false)) > 1
+						for _, d := range model.Lookup(cl, nm, false) {
+							for _, p := range d.Params {
+								if p.Key == "" && len(p.Type.Atoms) >= 3 && !p.Type.Untyped {
+									isWide = true
+								}
+							}
+						}
+						if isWide {
+							wide = append(wide, nm)
+						}
+					}
+					if len(wide) > 0 {
+						method = Pick(r, wide)
+					}
+				}
 				if decls := model.Lookup(cl, method, false); len(decls) > 0 {
 					decl = Pick(r, decls)
 				}
@@ -939,7 +977,7 @@ func genTypedProgram(r *RNG, model *CfgModel, userClasses []*GClass, n int) []*t
 			case want != nil && len(want.Atoms) > 0 && want.Elem == nil && !r.Chance(1, 5):
 				// a fitting value: a literal, a variable of that class, or a union of accepted classes
 				acl := Pick(r, want.Atoms)
-				if len(want.Atoms) > 1 && r.Chance(1, 3) {
+				if len(want.Atoms) > 1 && (r.Chance(1, 3) || (len(want.Atoms) > 2 && r.Bool())) {
 					// union argument, all variants accepted
 					b := Pick(r, want.Atoms)
 					if b != acl && acl != "Array" && b != "Array" {
